@@ -23,7 +23,12 @@ subprocess-posix.cc depfile_parser.cc lexer.cc""".split()
 
 CXX = "clang++"
 BASE = ["-std=gnu++17", "-O1", "-g", "-fno-omit-frame-pointer", "-DUSE_PPOLL=1",
-        "-DNINJA_VERIF=1", "-Wno-deprecated", "-Wno-unused-result"]
+        "-DNINJA_VERIF=1", "-Wno-deprecated", "-Wno-unused-result",
+        # libstdc++'s own precondition checks (operator[] / front() / back() / iterator ranges on vector, string, deque...):
+        # an index past size() but inside the capacity is invisible to ASan (libstdc++ has no container annotations)
+        "-D_GLIBCXX_ASSERTIONS"]
+# experiments (e.g. VERIF_EXTRA_FLAGS="-D_GLIBCXX_ASSERTIONS"): part of every cache key
+BASE += os.environ.get("VERIF_EXTRA_FLAGS", "").split()
 FLAVORS = {
     # the default: ASan + UBSan, reports fatal
     "asan": ["-fsanitize=address,undefined", "-fno-sanitize-recover=all",
@@ -33,6 +38,8 @@ FLAVORS = {
              "-fno-sanitize=object-size"],
     # no sanitizer (for valgrind memcheck and for speed-critical volume probes)
     "plain": [],
+    # for valgrind memcheck: valgrind 3.19 cannot read clang 14's default DWARF 5
+    "vg": ["-gdwarf-4", "-fno-inline-functions"],
 }
 
 
